@@ -104,6 +104,22 @@ class Evaluator:
             raise AnalysisError(f"{self.where}: '{e.id}' has no symbolic array value")
         if isinstance(e, (ast.List, ast.Tuple)):
             return [self.ev(x) for x in e.elts]
+        if isinstance(e, ast.Constant) and isinstance(e.value, bool):
+            return sp.true if e.value else sp.false
+        if isinstance(e, ast.Compare) and len(e.ops) == 1 and isinstance(e.ops[0], (ast.Eq, ast.NotEq)):
+            a, b = self.ev(e.left), self.ev(e.comparators[0])
+            mk = (lambda x, y: sp.Eq(x, y, evaluate=None)) if isinstance(e.ops[0], ast.Eq) else (lambda x, y: sp.Ne(x, y, evaluate=None))
+            return _map2(mk, a, b)
+        if isinstance(e, ast.BoolOp):
+            vals = [self.ev(v) for v in e.values]
+            if any(isinstance(v, list) for v in vals):
+                raise AnalysisError(f"{self.where}: truth value of an array")
+            return sp.And(*vals) if isinstance(e.op, ast.And) else sp.Or(*vals)
+        if isinstance(e, ast.UnaryOp) and isinstance(e.op, ast.Not):
+            v = self.ev(e.operand)
+            if isinstance(v, list):
+                raise AnalysisError(f"{self.where}: truth value of an array")
+            return sp.Not(v)
         if isinstance(e, ast.UnaryOp) and isinstance(e.op, ast.USub):
             return _map2(lambda x, _: -x, self.ev(e.operand), sp.Integer(0))
         if isinstance(e, ast.BinOp):
@@ -135,6 +151,8 @@ class Evaluator:
                     idx.append(-p.operand.value)
                 elif isinstance(p, ast.Slice) and p.lower is None and p.upper is None and p.step is None:
                     idx.append(slice(None))
+                elif isinstance(p, ast.Name) and isinstance(self.env.get(p.id), (int, sp.Integer)):
+                    idx.append(int(self.env[p.id]))
                 else:
                     raise AnalysisError(f"{self.where}: subscript '{core.src(p)}'")
             return _index(a, idx)
@@ -161,6 +179,21 @@ class Evaluator:
                     return r
             if f in ("np.array", "np.asarray", "np.ascontiguousarray", "float", "int", "np.double", "list", "tuple") and e.args:
                 return self.ev(e.args[0])
+            if f in ("np.abs", "abs", "np.absolute") and len(e.args) == 1:
+                return _map2(lambda x, _: sp.Abs(x), self.ev(e.args[0]), sp.Integer(0))
+            if isinstance(e.func, ast.Attribute) and e.func.attr in ("all", "any") and not e.args and not e.keywords:
+                v = self.ev(e.func.value)
+                flat = []
+
+                def fl(x):
+                    if isinstance(x, list):
+                        for y in x:
+                            fl(y)
+                    else:
+                        flat.append(x)
+
+                fl(v)
+                return sp.And(*flat) if e.func.attr == "all" else sp.Or(*flat)
             if f == "np.linalg.norm" and e.args:
                 a = self.ev(e.args[0])
                 axis = [k.value for k in e.keywords if k.arg == "axis"]
